@@ -77,6 +77,7 @@ def classify(events, v):
         # answered from a local pre-check without going through raft?
         sig["shortcut"] = e.get("res") == 0 and op.get("t") in ("lpop", "rpop", "setnx")
         sig["del_zero"] = e.get("res") == 0 and op.get("t") == "del"
+        sig["read"] = op.get("t") in ("get", "hget", "llen")
         return sig, "answer %s to %s cannot be placed in any linearization" % (e.get("res"), json.dumps(op))
     if e.get("ev") == "sent":
         sig["class"] = "send-before-persist"
@@ -119,11 +120,14 @@ def run(ctx):
     pebble_avoid = any(f.get("id") == "c14-pebble-checkpoint-release-timer" and f.get("status") == "open" for f in V.load_known())
     rounds = []
     nr = 3 if ctx.quick() else 42
-    mixes = ["kill,term,transfer", "kill", "kill,transfer", "term,transfer", "kill,kill,term"]
+    mixes = ["kill,term,transfer", "kill", "kill,transfer", "term,transfer", "kill,kill,term",
+             "partition", "kill,partition", "partition,transfer"]   # partition: thorough only (i % 8 >= 5)
     for i in range(nr):
         eng = ["mem", "pebble"][i % 2]
         a = ["-vnode", vnode, "-engine", eng, "-seed", str(ctx.seed * 1000 + i), "-mix", mixes[i % len(mixes) if not ctx.quick() else 0],
              "-epochs", "3", "-clients", str(3 + (i + ctx.seed) % 3)]
+        if not ctx.quick():
+            a += ["-reads"]      # GET / HGET / LLEN to the leader, checked as linearizable operations (thorough only so far)
         if eng == "pebble" and pebble_avoid:
             a += ["-snapcount", "1000000"]     # avoid rule of c14-pebble-checkpoint-release-timer while it was open
         elif eng == "pebble" and i % 4 == 1:
@@ -204,7 +208,11 @@ def run(ctx):
     # delswallow: strict since d21256b (DEL / EXISTS answer the error of a failed sub-command)
     iso2 = dict(name="stage-delswallow", engine="mem",
                 args=["-vnode", vnode, "-engine", "mem", "-kind", "delswallow", "-seed", str(ctx.seed)])
-    for r in V.parallel(do, [iso, iso2], n=2):
+    isos = [iso, iso2]
+    if not ctx.quick():
+        isos.append(dict(name="isolate-staleread", engine="mem",
+                         args=["-vnode", vnode, "-engine", "mem", "-kind", "staleread", "-seed", str(ctx.seed)]))
+    for r in V.parallel(do, isos, n=3):
         if r[1] is not None and r[3] is not None:
             stats["isolate"][r[0]["name"]] = dict(reproduced=not r[3]["accepted"], observed=r[1].get("nemesis"))
             account(*r)
@@ -286,7 +294,10 @@ def run(ctx):
         "operation is assumed not to take effect any more",
         "LPOP / RPOP / SETNX are only sent to the replica that reports itself leader (known finding "
         "c04-pop-precheck-local-read); the isolate stage checks the follower path",
-        "nemesis: process kill, graceful stop, leader transfer, one replica at a time; no network partitions "
-        "(C01-C03 cover message loss at the raft level)",
+        "nemesis: process kill, graceful stop, leader transfer, and (thorough) a partition that cuts one replica's raft "
+        "transport off for 1.8-4 s, one replica at a time; no asymmetric or partial partitions (C01-C03 cover message "
+        "loss at the raft level)",
+        "reads (thorough): GET / HGET / LLEN only to the replica that reports itself leader and never to the cut-off "
+        "replica (known finding c04-leader-local-read-after-deposition)",
         "an epoch that cannot be closed by a barrier in time is dropped and counted, never judged",
     ])
